@@ -193,3 +193,67 @@ func VerifC02cSession(nfiles, nlines, cats int) {
 		verifrt.Reach("all-delivered")
 	}
 }
+
+// VerifC02cManySlowFiles: a serverless cat session over nfiles files with a cat
+// limit of cats, every file read slowly (3 s per line: the first reads are
+// still running long after the client has handed over all its commands), a
+// consumer that keeps up and no gap between the commands - so none of the
+// known shutdown windows applies: every line of every file is delivered and
+// the session ends by itself.
+func VerifC02cManySlowFiles(nfiles, cats int) {
+	lg := dlog.VerifInstall(source.Client)
+	config.Server.MaxConcurrentCats = cats
+	config.Server.Permissions = config.Permissions{Default: []string{"^/.*$"}}
+	fs.VerifFiles = nil
+	const nlines = 2
+	var want [][]string
+	var commands []string
+	for f := 0; f < nfiles; f++ {
+		var content []byte
+		var ls []string
+		for i := 0; i < nlines; i++ {
+			l := "f" + string(rune('0'+f)) + "l" + string(rune('0'+i)) + "\n"
+			ls = append(ls, l)
+			content = append(content, l...)
+		}
+		path := fs.VerifProvideNamed("/f"+string(rune('0'+f)), content)
+		fs.VerifFiles[path].Chunks = []int{len(content) / nlines, len(content) / nlines}
+		fs.VerifFiles[path].Pace = 3 * time.Second
+		want = append(want, ls)
+		commands = append(commands, "cat:plain=true:quiet=true:serverless=true "+path+" regex:noop ")
+	}
+	handler := handlers.NewClientHandler("local(serverless)")
+	s := NewServerless("u", handler, commands)
+	ctx, cancel := context.WithCancel(context.Background())
+	done := make(chan struct{})
+	go func() {
+		s.Start(ctx, cancel, nil, nil)
+		close(done)
+	}()
+	ended := false
+	select {
+	case <-done:
+		ended = true
+	case <-time.After(5 * time.Minute):
+	}
+	verifrt.Assert(ended, "the session did not end by itself")
+	next := make([]int, nfiles)
+	for _, c := range lg.Raws {
+		if c == "" {
+			continue
+		}
+		ok := false
+		for f := 0; f < nfiles; f++ {
+			if next[f] < nlines && c == want[f][next[f]] {
+				next[f]++
+				ok = true
+				break
+			}
+		}
+		verifrt.Assert(ok, "something other than the next selected line of a file was printed")
+	}
+	for f := 0; f < nfiles; f++ {
+		verifrt.Assert(next[f] == nlines, "lines of a requested file were not delivered although the consumer keeps up and all reads overlap")
+	}
+	verifrt.Reach("all-delivered")
+}
